@@ -297,6 +297,7 @@ Observe(o, e) ==
                                     !.viol = @ \cup Flag("C07_CertValidated", e.ok => o.cfg.hs = "ok")]
     [] e.ev = "setdl"  -> [o EXCEPT !.armed = e.armed]
     [] e.ev = "wfail"  -> [o EXCEPT !.srvGone = TRUE]      \* the transport broke under a client write
+    [] e.ev = "xclose" -> [o EXCEPT !.srvGone = TRUE]      \* another goroutine closed the client
     [] e.ev = "stall"  -> [o EXCEPT !.stalled = TRUE, !.srvGone = TRUE, !.pend = NoCmd]
     [] e.ev = "log"    -> [o EXCEPT !.viol = @
                               \cup Flag("C16_NoSecretInLog", o.cfg.logauth \/ ~e.leak)
